@@ -1,7 +1,7 @@
 (** C12 — soundness of the certificate checker: a table that passes [check_table] is exact
     for the MiniChess game of its material class (and every sub-class reached by captures). *)
 From Coq Require Import List ZArith Bool Lia Arith.
-From Texel Require Import TB.DtmCert TB.MiniChess TB.Checker.
+From Texel Require Import TB.DtmCert TB.MiniChess TB.MiniChessFacts TB.Checker.
 Import ListNotations.
 Local Open Scope Z_scope.
 
@@ -27,8 +27,6 @@ Proof.
     inversion Hr; subst. injection Hl as Hl.
     exact (IH (fun r => f (d :: r)) (H d H2) r Hl H3).
 Qed.
-
-Definition sq_ok (o : option Z) : Prop := match o with Some s => 0 <= s < 64 | None => True end.
 
 Lemma placed_on_board : forall (c : list man) (l : list (option Z)),
   length l = length c ->
@@ -75,29 +73,6 @@ Proof.
   apply in_digits65. destruct o as [s|]; simpl in *; lia.
 Qed.
 
-(** a legal move never leaves the mover's king attacked: by definition of [try_move] *)
-Lemma try_move_safe : forall cls p i t c, In c (try_move cls p i t) ->
-  in_check_side (placed cls c) (negb (wtm c)) = false.
-Proof.
-  intros cls p i t c H. unfold try_move in H.
-  destruct (in_check_side (placed cls (apply_move p i t)) (wtm p)) eqn:E; [destruct H|].
-  destruct H as [H|[]]. subst c. simpl. rewrite negb_involutive. exact E.
-Qed.
-
-Lemma moves_mover_safe : forall cls p c, In c (moves cls p) ->
-  in_check_side (placed cls c) (negb (wtm c)) = false.
-Proof.
-  intros cls p c H. unfold moves in H. apply in_flat_map in H.
-  destruct H as [[i [[col k] o]] [_ H]]. simpl in H.
-  destruct o as [s|]; [|destruct H].
-  destruct (Bool.eqb col (wtm p)); [|destruct H].
-  apply in_flat_map in H. destruct H as [t [_ H]].
-  destruct (man_at (placed cls p) t) as [[c' k']|].
-  - destruct (Bool.eqb c' col); [destruct H|]. destruct (is_king k'); [destruct H|].
-    exact (try_move_safe cls p i t c H).
-  - exact (try_move_safe cls p i t c H).
-Qed.
-
 Section Sound.
   Variable cls : list man.
   Variable T : table.
@@ -136,10 +111,8 @@ Section Sound.
     unfold check_pos in C. cbv zeta in C.
     rewrite (pos_of_digits_of p (proj2 (wfb_sqs cls p Hw))) in C.
     unfold legal in Hp. rewrite Hp in C.
-    apply andb_true_iff in C. destruct C as [C1 C2].
-    split; [apply tlabel_eqb_eq; exact C1|].
-    rewrite forallb_forall in C2. intros c Hc. unfold legal, legalb.
-    rewrite (C2 c Hc), (moves_mover_safe cls p c Hc). reflexivity.
+    split; [apply tlabel_eqb_eq; exact C|].
+    intros c Hc. exact (moves_preserve_legal cls p c Hp Hc).
   Qed.
 
   Lemma check_cert : check_table cls T = true -> forall p, legal p ->
